@@ -1,9 +1,211 @@
-import Model.Notifier
+import Lemmas.NotifierDelivery
+/-! # C17 — notifications reach exactly the registered targets, once, in priority order
+
+Property theorems only.  The executable model is `Model/Notifier.lean` (`Nt.step`, run by `drv_c17` against the Go
+code on every check); helper lemmas are in `Lemmas/Notifier*.lean`.
+
+Vocabulary.  A *history* is a list of `Nt.Op` over any number of notifiers (indexed by `Nat`) and targets (`Nat`);
+`Nt.run pan ops` is the world after the history (`pan` says which targets panic) together with every event the targets
+and recovery handlers observed.  `Nt.specRun ops i : Name → target → Option priority` is the *specification relation*
+`registered` of notifier `i`, computed from the history alone by the four obvious rules (`Nt.specStep`: Register sets,
+Unregister clears the target, RegisterFromNotifier overlays the other notifier's relation, Reset clears everything).
+Names are byte strings; `normalize` = the non-empty dot-separated segments; `pre <+: n` on segment lists is
+"`pre` is `n` or a dot-ancestor of `n`".  All theorems are sequential (one operation at a time): the clause
+"concurrent use is free of data races" is outside the model and is only exercised by the `-race` stress run. -/
 namespace C17
 open Nt
-/-- placeholder while the pipeline is brought up -/
-theorem reset_silent (s : NSt) (raw : List Nat) : notify (reset s) raw = [] := by
-  simp [notify, reset, delivery, prefixes, gather]
-  intro _ _
-  induction (List.range (normalize raw).length) <;> simp_all [assocGet]
+
+/-- *refinement* (basis of every statement below): in every reachable world the production map of notifier `i` holds
+    exactly the registrations the history prescribes — directly or through `RegisterFromNotifier`, minus what
+    `Unregister`/`Reset` removed -/
+theorem registered_spec (pan : Nat → Bool) (ops : List Op) (i : Nat) (n : Name) (t : Nat) :
+    lookup ((run pan ops).1 i).prod n t = specRun ops i n t :=
+  lookup_run pan ops i n t
+
+/-- clause "invokes HandleNotification exactly once on each target currently registered for the name or for any
+    dot-separated ancestor of it": after any history, `Notify(raw)` on notifier `i` reaches `t` iff the notifier is enabled
+    and `t` is registered under a non-empty segment-wise prefix of the normalised name; and no target twice -/
+theorem notify_targets (pan : Nat → Bool) (ops : List Op) (i : Nat) (raw : List Nat) :
+    (∀ t, t ∈ targetsOf (notify ((run pan ops).1 i) raw) ↔
+      ((run pan ops).1 i).enabled = true ∧
+      ∃ pre, pre ≠ [] ∧ pre <+: normalize raw ∧ (specRun ops i pre t).isSome) ∧
+    (targetsOf (notify ((run pan ops).1 i) raw)).Nodup := by
+  refine ⟨fun t => ?_, nodup_targets_notify _ _⟩
+  rw [mem_targets_notify _ (winv_run pan ops i)]
+  simp only [registered_spec]
+
+/-- clause "in non-increasing order of the priority registered for the most specific matching name": the delivery list
+    is non-increasing in its priorities, and the priority attached to `t` is the one registered under the longest
+    ancestor-or-self of the name that mentions `t` -/
+theorem notify_priority_order (pan : Nat → Bool) (ops : List Op) (i : Nat) (raw : List Nat) :
+    (notify ((run pan ops).1 i) raw).Pairwise (fun a b => a.1 ≥ b.1) ∧
+    ∀ p t, (p, t) ∈ notify ((run pan ops).1 i) raw →
+      ∃ pre, pre ≠ [] ∧ pre <+: normalize raw ∧ specRun ops i pre t = some p ∧
+        ∀ pre', pre' <+: normalize raw → pre.length < pre'.length → specRun ops i pre' t = none := by
+  refine ⟨sorted_notify _ _, fun p t hm => ?_⟩
+  have := prio_notify _ (winv_run pan ops i) raw p t hm
+  simpa only [registered_spec] using this
+
+/-- clause "never for a name that merely shares a textual prefix": a target all of whose registrations are under names
+    that are not segment-wise prefixes of the notified name is not reached, whatever the spelling of those names -/
+theorem no_textual_prefix (pan : Nat → Bool) (ops : List Op) (i : Nat) (raw : List Nat) (t : Nat)
+    (h : ∀ m, (specRun ops i m t).isSome → ¬ m <+: normalize raw) :
+    t ∉ targetsOf (notify ((run pan ops).1 i) raw) := by
+  rw [(notify_targets pan ops i raw).1]
+  rintro ⟨_, pre, _, hp, hs⟩
+  exact h pre hs hp
+
+/-- the walk visits exactly the non-empty segment-wise prefixes (`foo.bar` is not an ancestor of `foo.barn`) -/
+theorem walk_is_segmentwise (n pre : Name) : pre ∈ prefixes n ↔ pre ≠ [] ∧ pre <+: n := mem_prefixes n pre
+
+/-- "foo.bar" is a textual prefix of "foo.barn" (bytes) but not a dot-ancestor -/
+example : ([102, 111, 111, 46, 98, 97, 114] : List Nat) <+: [102, 111, 111, 46, 98, 97, 114, 110] ∧
+    ¬ normalize [102, 111, 111, 46, 98, 97, 114] <+: normalize [102, 111, 111, 46, 98, 97, 114, 110] := by
+  decide
+
+/-- clause "on nobody while the notifier is disabled or after the target is unregistered or the notifier Reset":
+    in every reachable world, a disabled notifier delivers nothing; right after `Unregister(t)` no name reaches `t`
+    (every other target is unaffected: `unregister_frame`); right after `Reset` no name reaches anybody.
+    (Silence *persists* until a new Register/RegisterFromNotifier by `notify_targets`, whose right-hand side is the
+    history-level relation `specRun`.) -/
+theorem disabled_or_unregistered_or_reset_silent (pan : Nat → Bool) (ops : List Op) (i : Nat) (raw : List Nat) :
+    (((run pan ops).1 i).enabled = false → notify ((run pan ops).1 i) raw = []) ∧
+    (∀ t, t ∉ targetsOf (notify ((step pan (run pan ops).1 (.unregister i t)).1 i) raw)) ∧
+    notify ((step pan (run pan ops).1 (.reset i)).1 i) raw = [] := by
+  have hw := winv_run pan ops
+  refine ⟨fun he => by simp [notify, he], fun t => ?_, ?_⟩
+  · have hinv := winv_step pan _ hw (.unregister i t) i
+    rw [mem_targets_notify _ hinv]
+    rintro ⟨_, pre, _, _, hs⟩
+    simp only [step, World.set, if_true] at hs
+    rw [lookup_unregister _ (hw i)] at hs
+    simp at hs
+  · apply notify_nil_of_no_targets
+    intro t
+    have hinv := winv_step pan _ hw (.reset i) i
+    rw [mem_targets_notify _ hinv]
+    rintro ⟨_, pre, _, _, hs⟩
+    simp only [step, World.set, if_true] at hs
+    rw [lookup_reset] at hs
+    simp at hs
+
+/-- `Unregister(t)` removes `t` from every name and touches no other registration -/
+theorem unregister_frame (pan : Nat → Bool) (ops : List Op) (i t : Nat) (n : Name) (t' : Nat) :
+    lookup ((step pan (run pan ops).1 (.unregister i t)).1 i).prod n t' =
+      if t' = t then none else lookup ((run pan ops).1 i).prod n t' := by
+  simp only [step, World.set, if_true]
+  exact lookup_unregister _ (winv_run pan ops i) t n t'
+
+/-- `Register(t, prio, names…)`: afterwards `t` has priority `prio` under each non-empty normalised name; every other
+    (name, target) pair is as before -/
+theorem register_spec (s : NSt) (t : Nat) (p : Int) (raws : List (List Nat)) (n : Name) (t' : Nat) :
+    lookup (register s t p raws).prod n t' = if n ∈ normNames raws ∧ t' = t then some p else lookup s.prod n t' :=
+  lookup_register s t p raws n t'
+
+/-- clause "directly or through RegisterFromNotifier": after `n_i.RegisterFromNotifier(n_m)` in any reachable world a
+    (name, target) pair has the other notifier's priority if the other registers it and the receiver's own otherwise —
+    also for names both notifiers know (the defect fixed in the repository) —, and the other notifier is unchanged -/
+theorem merge_spec (pan : Nat → Bool) (ops : List Op) (i m : Nat) (n : Name) (t : Nat) :
+    lookup ((step pan (run pan ops).1 (.merge i m)).1 i).prod n t =
+      (lookup ((run pan ops).1 m).prod n t).or (lookup ((run pan ops).1 i).prod n t) ∧
+    (i ≠ m → (step pan (run pan ops).1 (.merge i m)).1 m = (run pan ops).1 m) := by
+  constructor
+  · simp only [step]
+    by_cases him : i = m
+    · subst him; simp only [if_true]; cases lookup ((run pan ops).1 i).prod n t <;> rfl
+    · simp only [him, if_false, World.set, if_true]
+      exact lookup_mergeFrom _ _ (winv_run pan ops m) n t
+  · intro him
+    have : ¬ m = i := fun e => him e.symm
+    simp [step, him, World.set, this]
+
+/-- the unrepaired merge loop (destination set overlaid on itself) loses the pair — the seeded regression —,
+    the loop of the model (and of the repository now) keeps it -/
+example : lookup ([([[97]], [(2, 5)])].foldl stepMergeOrig [([[97]], [(1, 0)])]) [[97]] 2 = none ∧
+    lookup (mergeProd [([[97]], [(1, 0)])] [([[97]], [(2, 5)])]) [[97]] 2 = some 5 := by decide
+
+/-- clause "StartBatch/EndBatch pairs nest: BatchMode(true) goes once to every batch target on the outermost start and
+    BatchMode(false) once to the same targets on the matching end": from any reachable world in which notifier `n` is
+    enabled and idle, for every well-nested middle part `mid` (any operations on any notifiers, any depth of inner
+    Start/End pairs of `n`, no Reset/SetEnabled of `n`): the outer `StartBatch` calls `BatchMode(true)` on exactly the list
+    `batch` of batch targets, `mid` causes no `BatchMode` call from `n` at all, the matching `EndBatch` calls
+    `BatchMode(false)` on the same list and leaves the level at 0; the list has no duplicates and consists of the
+    registered batch-capable targets -/
+theorem batch_nesting (pan : Nat → Bool) (ops : List Op) (n : Nat) (mid : List Op)
+    (he : ((run pan ops).1 n).enabled = true) (hl : ((run pan ops).1 n).level = 0) (hm : matched n 0 mid = true) :
+    let w := (run pan ops).1
+    let r1 := step pan w (.startBatch n)
+    let r2 := runFrom pan r1.1 mid
+    let r3 := step pan r2.1 (.endBatch n)
+    r1.2 = batchAll pan n true (w n).batch ∧ NoBatchEvents n r2.2 ∧ r3.2 = batchAll pan n false (w n).batch ∧
+    (r3.1 n).level = 0 ∧ (w n).batch.Nodup ∧
+    ∀ t, t ∈ (w n).batch ↔ batchCapable t = true ∧ ∃ nm, (specRun ops n nm t).isSome := by
+  intro w r1 r2 r3
+  have hw := winv_run pan ops
+  obtain ⟨a, b, c, d⟩ := nest_outer pan w hw n mid he hl hm
+  refine ⟨a, b, c, d, (hw n).batchNodup, fun t => ?_⟩
+  rw [(hw n).batchIff, mem_keys_iff]
+  constructor
+  · rintro ⟨hb, hk⟩
+    refine ⟨hb, ?_⟩
+    cases hg : assocGet (w n).names t with
+    | none => rw [hg] at hk; cases hk
+    | some ns =>
+      cases ns with
+      | nil => exact absurd rfl ((hw n).nonempty t [] hg)
+      | cons nm rest =>
+        refine ⟨nm, ?_⟩
+        rw [← registered_spec pan, (hw n).consistent]
+        exact ⟨nm :: rest, hg, by simp⟩
+  · rintro ⟨hb, nm, hs⟩
+    refine ⟨hb, ?_⟩
+    rw [← registered_spec pan, (hw n).consistent] at hs
+    obtain ⟨ns, hg, _⟩ := hs
+    simp [hg]
+
+/-- an unmatched `EndBatch` (level 0) and any Start/End on a disabled notifier do nothing -/
+theorem unmatched_end_silent (s : NSt) :
+    (s.level = 0 → endBatch s = (s, [])) ∧ (s.enabled = false → endBatch s = (s, []) ∧ startBatch s = (s, [])) := by
+  constructor
+  · intro h; simp [endBatch, h]
+  · intro h; simp [endBatch, startBatch, h]
+
+/-- `maps_consistent`, over all histories: the production map and the name map are mutual inverses (this is what makes
+    `Unregister` complete), the batch set is exactly the set of registered batch-capable targets and has no duplicates,
+    no key occurs twice in any of the association lists, and an idle notifier holds no current batch -/
+theorem maps_consistent (pan : Nat → Bool) (ops : List Op) (i : Nat) :
+    let s := (run pan ops).1 i
+    (∀ n t, (lookup s.prod n t).isSome ↔ hasName s.names t n) ∧
+    (∀ t, t ∈ s.batch ↔ batchCapable t = true ∧ t ∈ keys s.names) ∧
+    (∀ t ns, assocGet s.names t = some ns → ns ≠ []) ∧
+    s.batch.Nodup ∧ (keys s.prod).Nodup ∧ (keys s.names).Nodup ∧ SetsNodup s.prod ∧ (s.level = 0 → s.current = []) := by
+  intro s
+  have h := winv_run pan ops i
+  exact ⟨h.consistent, h.batchIff, h.nonempty, h.batchNodup, h.prodKeys, h.nameKeys, h.sets, h.idle⟩
+
+/-- clause "a panicking target is reported to the recovery handler and does not stop delivery to the rest" (model
+    level): whatever set of targets panics, every operation leaves the same world and makes the same calls in the same
+    order as when nobody panics, and the recovery handler receives exactly one report per call made to a panicking target -/
+theorem panic_does_not_stop_delivery (pan : Nat → Bool) (w : World) (op : Op) :
+    (step pan w op).1 = (step nobody w op).1 ∧
+    calls (step pan w op).2 = (step nobody w op).2 ∧
+    reports (step pan w op).2 = ((step nobody w op).2.filter (fun e => pan e.target)).length := by
+  cases op with
+  | notify n raw => exact ⟨rfl, (calls_deliverAll pan n _ _).1, (calls_deliverAll pan n _ _).2⟩
+  | startBatch n => exact ⟨rfl, (calls_batchAll pan n _ _).1, (calls_batchAll pan n _ _).2⟩
+  | endBatch n => exact ⟨rfl, (calls_batchAll pan n _ _).1, (calls_batchAll pan n _ _).2⟩
+  | merge n m => simp only [step]; split <;> simp [calls, reports]
+  | _ => exact ⟨rfl, rfl, rfl⟩
+
+/-- name normalisation: the segments are non-empty and dot-free, and splitting the re-joined normalised name (what
+    `NotifyWithData` does with `strings.Split(normalizeName(name), ".")`) gives the same segments back -/
+theorem normalize_join_roundtrip (raw : List Nat) :
+    (∀ seg ∈ normalize raw, seg ≠ [] ∧ 46 ∉ seg) ∧ normalize (joinDots (normalize raw)) = normalize raw :=
+  ⟨normalize_segments raw, normalize_join raw⟩
+
+/-! non-vacuity: the hypotheses of `batch_nesting` are met (target 1 registered, a nested pair and a notification inside) -/
+example : ((run nobody [.register 0 1 5 [[97]]]).1 0).enabled = true ∧ ((run nobody [.register 0 1 5 [[97]]]).1 0).level = 0 ∧
+    matched 0 0 [.startBatch 0, .notify 0 [97], .endBatch 0, .register 0 3 1 [[98]]] = true := by
+  decide
+
 end C17
